@@ -20,6 +20,29 @@ CLAIMS = {
              "picky; proof tracking on/off; incremental histories) is replayed through the proved executable step function; "
              "a clause that is not RUP at that moment is rejected with the script as replay.",
         design_ref="5 C12, 4 Prop/Cdcl"),
+    "C01": dict(
+        technique="Lean 4 proof (SMT-level abstract machine: unsat soundness for all accepted event sequences) tied by trace refinement with kernel-checked theory clauses",
+        text="Theorem Smt.unsat_sound: for every event sequence accepted by the executable step function (input clauses "
+             "entailed by their root formula via three-valued evaluation, theory clauses certified by the LA/EUF kernels, "
+             "learnt clauses RUP, final conflict by propagation under the frame assumptions) the roots of the enabled frames "
+             "are unsatisfiable in every well-formed interpretation. Tie: every check-sat of every generated script/history "
+             "x option vector x engine is traced and replayed; an unsat that the machine cannot confirm is a violation with the "
+             "script as replay. Partial: the step roots -> user assertions is C13; array logics are outside the corpus.",
+        design_ref="5 C01"),
+    "C11": dict(
+        technique="Lean 4 proof (soundness of LA/Farkas and EUF proof-checking kernels) applied to every theory clause of traced runs",
+        text="Theorems laClauseCheck_sound (Farkas combination over Q, integer tightening, disequality splits) and "
+             "eufClauseCheck_sound (equational proofs with congruence): an accepted clause is true in every well-formed "
+             "interpretation, independently of the assertions. Tie: every conflict, propagation reason, root deduction, "
+             "split and interface clause emitted by THandler in traced runs must be accepted with a certificate from an "
+             "untrusted producer. Partial: array lemmas have no kernel (array logics not in the corpus).",
+        design_ref="5 C11"),
+    "C26": dict(
+        technique="Lean 4 proof (Farkas certificate soundness) checked on the solver's own coefficients for every traced LA conflict",
+        text="Theorem conflictCheck_sound: strictly positive coefficients, cancelling unknowns, contradictory constant => "
+             "the bounds are unsatisfiable over Q (and Z with integer tightening). Tie: LASolver::storeExplanation's bounds "
+             "and coefficients of every conflict in traced LRA/LIA/UFLRA/UFLIA runs go through the executable conflictCheck.",
+        design_ref="5 C26"),
 }
 
 PENDING = "not yet built in this round; design in DESIGN.md section 5, construction order in section 10"
